@@ -572,3 +572,42 @@ Proof.
   - discriminate.
 Qed.
 End QuadInstances.
+
+(* nested argument scalings / left scalings: OperatorRightScalarMult.__init__ and
+   OperatorLeftScalarMult.__init__ flatten them into ONE object with the merged scalar;
+   value, gradient and grad_lipschitz of the nested tree equal those of the merged one *)
+Lemma lip_scale_scale (a b : R) (l : @lip R) : 0 <= a -> 0 <= b ->
+  lip_scale b (lip_scale a l) = lip_scale (b * a) l.
+Proof.
+  intros Ha Hb. destruct l as [| |c]; cbn [lip_scale]; numR; try reflexivity.
+  - destruct (Reqb_spec a 0) as [->|Hna]; cbn [lip_scale]; numR.
+    + rewrite Rmult_0_r. destruct (Reqb_spec 0 0) as [_|E]; [reflexivity|contradiction E; reflexivity].
+    + destruct (Reqb_spec b 0) as [->|Hnb].
+      * rewrite Rmult_0_l. destruct (Reqb_spec 0 0) as [_|E]; [reflexivity|contradiction E; reflexivity].
+      * destruct (Reqb_spec (b * a) 0) as [E|_]; [|reflexivity].
+        apply Rmult_integral in E. destruct E; contradiction.
+  - f_equal. ring.
+Qed.
+Section Merging.
+Variable S : RSpace.
+Hypothesis L : SpaceLaws S.
+Lemma rscal_merge (f : Rexpr S) (a b : R) (x : car S) :
+  value (FRightScal (FRightScal f a) b) x = value (FRightScal f (b * a)) x
+  /\ gradient (FRightScal (FRightScal f a) b) x = gradient (FRightScal f (b * a)) x
+  /\ lipschitz (FRightScal (FRightScal f a) b) = lipschitz (FRightScal f (b * a)).
+Proof.
+  cbn [value gradient lipschitz]; numR. rewrite !(scal_scal S L), (Rmult_comm a b).
+  repeat split; try reflexivity.
+  rewrite lip_scale_scale by (pose proof (Rabs_pos a); pose proof (Rabs_pos b); nra).
+  f_equal. rewrite Rabs_mult. ring.
+Qed.
+Lemma lscal_merge (f : Rexpr S) (a b : R) (x : car S) :
+  value (FLeftScal b (FLeftScal a f)) x = value (FLeftScal (b * a) f) x
+  /\ gradient (FLeftScal b (FLeftScal a f)) x = gradient (FLeftScal (b * a) f) x
+  /\ lipschitz (FLeftScal b (FLeftScal a f)) = lipschitz (FLeftScal (b * a) f).
+Proof.
+  cbn [value gradient lipschitz]; numR. rewrite !(scal_scal S L).
+  repeat split; try reflexivity; try ring.
+  rewrite lip_scale_scale by apply Rabs_pos. f_equal. rewrite Rabs_mult. reflexivity.
+Qed.
+End Merging.
